@@ -331,7 +331,7 @@ theorem v (t : String) (h : htmlVocabulary.contains t.toList = true := by decide
     htmlVocabulary.contains t.toList = true := h
 
 mutual
-theorem inline_wf (o : Opts) : ∀ (i : Inline), WF (renderInline o i)
+theorem inline_wf (o : Quotes) : ∀ (i : Inline), WF (renderInline o i)
   | .rawText c => WF.text _ (safeText_escapeHtmlText ..)
   | .strong _ k => WF.wrap _ _ (v "strong") rfl (inlines_wf o k)
   | .emphasis _ k => WF.wrap _ _ (v "em") rfl (inlines_wf o k)
@@ -378,7 +378,7 @@ theorem inline_wf (o : Opts) : ∀ (i : Inline), WF (renderInline o i)
   | .xwikiMacroStart _ => WF.nil
   | .xwikiMacroEnd _ => WF.nil
   | .linkRefDef .. => WF.nil
-theorem inlines_wf (o : Opts) : ∀ (is : List Inline), WF (renderInlines o is)
+theorem inlines_wf (o : Quotes) : ∀ (is : List Inline), WF (renderInlines o is)
   | [] => WF.nil
   | i :: is => WF.append (inline_wf o i) (inlines_wf o is)
 end
@@ -400,7 +400,7 @@ theorem langAttr_ok (lang : Str) :
     rw [safeAttr_append, safeAttr_htmlEscape]
     decide
 
-theorem cell_wf (o : Opts) (h : Bool) (c : Block) : WF (renderCell o h c) := by
+theorem cell_wf (o : Quotes) (h : Bool) (c : Block) : WF (renderCell o h c) := by
   cases c <;> simp only [renderCell] <;> try exact WF.nil
   rename_i a k _
   have ht : htmlVocabulary.contains (if h = true then "th".toList else "td".toList) = true := by
@@ -409,13 +409,13 @@ theorem cell_wf (o : Opts) (h : Bool) (c : Block) : WF (renderCell o h c) := by
     (attrsOk_cons _ _ _ (by decide) (alignName_safe a) rfl) (inlines_wf o k)) WF.nl
   simpa using this
 
-theorem cells_wf (o : Opts) (h : Bool) : ∀ (cs : List Block), WF (renderCells o h cs)
+theorem cells_wf (o : Quotes) (h : Bool) : ∀ (cs : List Block), WF (renderCells o h cs)
   | [] => WF.nil
   | c :: cs => by
     simp only [renderCells]
     exact WF.append (cell_wf o h c) (cells_wf o h cs)
 
-theorem row_wf (o : Opts) (s h : Bool) (r : Block) : WF (renderRow o s h r) := by
+theorem row_wf (o : Quotes) (s h : Bool) (r : Block) : WF (renderRow o s h r) := by
   cases r <;> simp only [renderRow] <;> try exact WF.nil
   rename_i a cells _
   have := WF.append (WF.wrap "tr".toList [] (v "tr") rfl (WF.append WF.nl (cells_wf o h cells))) WF.nl
@@ -434,7 +434,7 @@ theorem table_wf (head body : List Ev) (hh : WF head) (hb : WF body) :
   simpa using this
 
 mutual
-theorem block_wf (o : Opts) : ∀ (s : Bool) (b : Block), levelsOk b = true → WF (renderBlock o s b)
+theorem block_wf (o : Quotes) : ∀ (s : Bool) (b : Block), levelsOk b = true → WF (renderBlock o s b)
   | s, .paragraph k _, _ => by
     simp only [renderBlock]
     split
@@ -507,7 +507,7 @@ theorem block_wf (o : Opts) : ∀ (s : Bool) (b : Block), levelsOk b = true → 
   | s, .htmlBlock c _, _ => WF.raw c
   | s, .blankLine _, _ => WF.nil
   | s, .linkRefDefBlock _ _, _ => WF.nil
-theorem sep_wf (o : Opts) : ∀ (s : Bool) (bs : List Block), levelsOks bs = true → WF (renderSep o s bs)
+theorem sep_wf (o : Quotes) : ∀ (s : Bool) (bs : List Block), levelsOks bs = true → WF (renderSep o s bs)
   | _, [], _ => WF.nil
   | s, [b], h => by
     simp only [levelsOks, Bool.and_true] at h
@@ -517,13 +517,13 @@ theorem sep_wf (o : Opts) : ∀ (s : Bool) (bs : List Block), levelsOks bs = tru
     simp only [renderSep]
     exact WF.append (WF.append (block_wf o s b h.1) WF.nl)
       (sep_wf o s (b' :: rest) (by simp only [levelsOks, Bool.and_eq_true]; exact h.2))
-theorem afterEach_wf (o : Opts) : ∀ (s : Bool) (bs : List Block), levelsOks bs = true → WF (renderAfterEach o s bs)
+theorem afterEach_wf (o : Quotes) : ∀ (s : Bool) (bs : List Block), levelsOks bs = true → WF (renderAfterEach o s bs)
   | _, [], _ => WF.nil
   | s, b :: rest, h => by
     simp only [levelsOks, Bool.and_eq_true] at h
     simp only [renderAfterEach]
     exact WF.append (WF.append (block_wf o s b h.1) WF.nl) (afterEach_wf o s rest h.2)
-theorem cat_wf (o : Opts) : ∀ (s : Bool) (bs : List Block), levelsOks bs = true → WF (renderCat o s bs)
+theorem cat_wf (o : Quotes) : ∀ (s : Bool) (bs : List Block), levelsOks bs = true → WF (renderCat o s bs)
   | _, [], _ => WF.nil
   | s, b :: rest, h => by
     simp only [levelsOks, Bool.and_eq_true] at h
@@ -531,7 +531,7 @@ theorem cat_wf (o : Opts) : ∀ (s : Bool) (bs : List Block), levelsOks bs = tru
     exact WF.append (block_wf o s b h.1) (cat_wf o s rest h.2)
 end
 
-theorem doc_wf (o : Opts) (d : Doc) (h : levelsOks d.kids = true) : WF (renderDoc o d) := by
+theorem doc_wf (o : Quotes) (d : Doc) (h : levelsOks d.kids = true) : WF (renderDoc o d) := by
   unfold renderDoc
   split
   · exact WF.nil
@@ -575,7 +575,7 @@ def htmlSpansL : List Inline → List Str
 end
 
 mutual
-theorem raws_inline (o : Opts) : ∀ (i : Inline), rawsOf (renderInline o i) = htmlSpans i
+theorem raws_inline (o : Quotes) : ∀ (i : Inline), rawsOf (renderInline o i) = htmlSpans i
   | .rawText _ => rfl
   | .strong _ k => by simp [renderInline, htmlSpans, raws_inlines o k]
   | .emphasis _ k => by simp [renderInline, htmlSpans, raws_inlines o k]
@@ -592,7 +592,7 @@ theorem raws_inline (o : Opts) : ∀ (i : Inline), rawsOf (renderInline o i) = h
   | .xwikiMacroStart _ => rfl
   | .xwikiMacroEnd _ => rfl
   | .linkRefDef .. => rfl
-theorem raws_inlines (o : Opts) : ∀ (is : List Inline), rawsOf (renderInlines o is) = htmlSpansL is
+theorem raws_inlines (o : Quotes) : ∀ (is : List Inline), rawsOf (renderInlines o is) = htmlSpansL is
   | [] => rfl
   | i :: is => by simp [renderInlines, htmlSpansL, raws_inline o i, raws_inlines o is]
 end
@@ -626,21 +626,21 @@ def htmlOfL : List Block → List Str
   | b :: bs => htmlOf b ++ htmlOfL bs
 end
 
-theorem raws_cell (o : Opts) (h : Bool) (c : Block) : rawsOf (renderCell o h c) = cellHtml c := by
+theorem raws_cell (o : Quotes) (h : Bool) (c : Block) : rawsOf (renderCell o h c) = cellHtml c := by
   cases c <;> simp [renderCell, cellHtml, raws_inlines]
 
-theorem raws_cells (o : Opts) (h : Bool) : ∀ cs, rawsOf (renderCells o h cs) = cellsHtml cs
+theorem raws_cells (o : Quotes) (h : Bool) : ∀ cs, rawsOf (renderCells o h cs) = cellsHtml cs
   | [] => rfl
   | c :: cs => by simp [renderCells, cellsHtml, raws_cell, raws_cells o h cs]
 
-theorem raws_row (o : Opts) (s h : Bool) (r : Block) : rawsOf (renderRow o s h r) = rowHtml r := by
+theorem raws_row (o : Quotes) (s h : Bool) (r : Block) : rawsOf (renderRow o s h r) = rowHtml r := by
   cases r <;> simp [renderRow, rowHtml, raws_cells]
 
 theorem rawsOf_ite_nl (p : Prop) [Decidable p] : rawsOf (if p then [] else [nl]) = [] := by
   split <;> rfl
 
 mutual
-theorem raws_block (o : Opts) : ∀ (s : Bool) (b : Block), rawsOf (renderBlock o s b) = htmlOf b
+theorem raws_block (o : Quotes) : ∀ (s : Bool) (b : Block), rawsOf (renderBlock o s b) = htmlOf b
   | s, .paragraph k _ => by simp only [renderBlock]; split <;> simp [htmlOf, raws_inlines]
   | s, .heading _ _ k _ => by simp [renderBlock, htmlOf, raws_inlines]
   | s, .setextHeading _ _ k _ => by simp [renderBlock, htmlOf, raws_inlines]
@@ -665,23 +665,23 @@ theorem raws_block (o : Opts) : ∀ (s : Bool) (b : Block), rawsOf (renderBlock 
   | s, .htmlBlock .. => rfl
   | s, .blankLine _ => rfl
   | s, .linkRefDefBlock .. => rfl
-theorem raws_sep (o : Opts) : ∀ (s : Bool) (bs : List Block), rawsOf (renderSep o s bs) = htmlOfL bs
+theorem raws_sep (o : Quotes) : ∀ (s : Bool) (bs : List Block), rawsOf (renderSep o s bs) = htmlOfL bs
   | _, [] => rfl
   | s, [b] => by simp [renderSep, htmlOfL, raws_block o s b]
   | s, b :: b' :: rest => by
     simp only [renderSep, htmlOfL, rawsOf_append, raws_block o s b, raws_sep o s (b' :: rest)]
     simp [htmlOfL]
-theorem raws_afterEach (o : Opts) : ∀ (s : Bool) (bs : List Block), rawsOf (renderAfterEach o s bs) = htmlOfL bs
+theorem raws_afterEach (o : Quotes) : ∀ (s : Bool) (bs : List Block), rawsOf (renderAfterEach o s bs) = htmlOfL bs
   | _, [] => rfl
   | s, b :: rest => by simp [renderAfterEach, htmlOfL, raws_block o s b, raws_afterEach o s rest]
-theorem raws_cat (o : Opts) : ∀ (s : Bool) (bs : List Block), rawsOf (renderCat o s bs) = htmlOfL bs
+theorem raws_cat (o : Quotes) : ∀ (s : Bool) (bs : List Block), rawsOf (renderCat o s bs) = htmlOfL bs
   | _, [] => rfl
   | s, b :: rest => by simp [renderCat, htmlOfL, raws_block o s b, raws_cat o s rest]
 end
 
 /-- The raw leaves of a document's output are the HTML tokens' contents in document order
     (when the output is empty there are none). -/
-theorem raws_doc (o : Opts) (d : Doc) :
+theorem raws_doc (o : Quotes) (d : Doc) :
     rawsOf (renderDoc o d) = if (renderDoc o d).isEmpty then [] else htmlOfL d.kids := by
   unfold renderDoc
   split
